@@ -14,7 +14,29 @@ Variable sh : shape.
 Variable body : nat -> name -> Z -> Z -> bool -> list action.
 Variable nested : sm -> Z -> sm * list event.
 
-(* one iteration whose selection phases end in state [s] of machine [mx] *)
+(* the state function [s] is invoked on machine [mcall] (bookkeeping done), after
+   the events [pre]; whatever its body does follows *)
+Definition finish_call (mcall : sm) (s : name) (tm stm : Z) (init : bool) (pre : list event)
+  : sm * list event :=
+  let '(m2, e) := run_actions sh nested (body (ncall mcall) s tm stm init)
+                    (mcall <| ncall := S (ncall mcall) |>) in
+  (m2 <| should := false |>, pre ++ EvCall s tm stm init (engaged mcall) :: e).
+
+Lemma finish_call_shape mcall s tm stm init pre :
+  exists m2 e, finish_call mcall s tm stm init pre = (m2, pre ++ EvCall s tm stm init (engaged mcall) :: e).
+Proof.
+  unfold finish_call.
+  destruct (run_actions sh nested (body (ncall mcall) s tm stm init) (mcall <| ncall := S (ncall mcall) |>)) as [m2 e].
+  eauto.
+Qed.
+
+(* first-call bookkeeping *)
+Definition bk_m (m : sm) (s : name) (nss : Z) : sm :=
+  m <| sdat := upd (sdat m) s {| ran := true; st_start := nss; st_exp := nss + duration_of sh m s |} |>.
+Definition bk_ev (m : sm) (s : name) (nss : Z) : event :=
+  EvBk s (start m + nss) (start m + (nss + duration_of sh m s)).
+
+(* one iteration whose selection phases end in state [s] *)
 Lemma exec_step_call m now x s :
   (negb (engaged m) && negb (should m) && is_none (sh_default sh))%bool = false ->
   clk m <= now ->
@@ -22,19 +44,25 @@ Lemma exec_step_call m now x s :
   s_st x = Some s ->
   exec_step sh body nested m now =
     (let '(m1, init, bk) := enter_bk sh (s_m x) s (s_nss x) in
-     let stm := s_tm x - st_start (sdat m1 s) in
-     let '(m2, e) := run_actions sh nested (body (ncall m1) s (s_tm x) stm init) (m1 <| ncall := S (ncall m1) |>) in
-     (m2 <| should := false |>, s_ev x ++ bk ++ EvCall s (s_tm x) stm init (engaged m1) :: e)).
+     finish_call m1 s (s_tm x) (s_tm x - st_start (sdat m1 s)) init (s_ev x ++ bk)).
 Proof.
   intros Hearly Hclk Hx Hs. unfold exec_step.
   replace (negb (engaged (m <| clk := now |>)) && negb (should (m <| clk := now |>)) && is_none (sh_default sh))%bool
     with false by (cbn; symmetry; exact Hearly).
   rewrite Hx, Hs.
   destruct (Z.ltb_spec now (clk m)); [lia|].
-  destruct (enter_bk sh (s_m x) s (s_nss x)) as [[m1 init] bk].
+  destruct (enter_bk sh (s_m x) s (s_nss x)) as [[m1 init] bk]. unfold finish_call.
   match goal with |- context [run_actions sh nested ?a ?mm] => destruct (run_actions sh nested a mm) as [m2 e] end.
-  reflexivity.
+  cbn [app]. rewrite <- app_assoc. reflexivity.
 Qed.
+
+Lemma enter_bk_ran m s nss : ran (sdat m s) = true -> enter_bk sh m s nss = (m, false, []).
+Proof. intros H. unfold enter_bk. rewrite H. reflexivity. Qed.
+Lemma enter_bk_fresh m s nss : ran (sdat m s) = false ->
+  enter_bk sh m s nss = (bk_m m s nss, true, [bk_ev m s nss]).
+Proof. intros H. unfold enter_bk. rewrite H. reflexivity. Qed.
+Lemma bk_m_start m s nss : st_start (sdat (bk_m m s nss) s) = nss.
+Proof. unfold bk_m. cbn. unfold upd. rewrite Nat.eqb_refl. reflexivity. Qed.
 
 Lemma latch_engaged_id m now : engaged m = true -> latch m now = m.
 Proof. intros H. unfold latch. rewrite H. reflexivity. Qed.
@@ -42,12 +70,11 @@ Proof. intros H. unfold latch. rewrite H. reflexivity. Qed.
 Definition requested_or_must (m : sm) (s : name) : Prop := (should m || is_must sh s)%bool = true.
 
 (* T1: the state that has run keeps running until tm exceeds its expiry *)
-Theorem holds_until_expiry m now s :
+Theorem holds_until_expiry_eq m now s :
   engaged m = true -> cur m = Some s -> ran (sdat m s) = true ->
   now - start m <= st_exp (sdat m s) -> requested_or_must m s -> clk m <= now ->
-  exists m2 e,
-    exec_step sh body nested m now =
-    (m2, EvCall s (now - start m) (now - start m - st_start (sdat m s)) false true :: e).
+  exec_step sh body nested m now =
+  finish_call (m <| clk := now |>) s (now - start m) (now - start m - st_start (sdat m s)) false [].
 Proof.
   intros He Hc Hr Hx Hk Hclk.
   set (mc := m <| clk := now |>).
@@ -59,14 +86,49 @@ Proof.
   rewrite (exec_step_call m now (keep_sel mc now (Some s)) s);
     [| rewrite He; reflexivity | exact Hclk | fold mc; rewrite Hl, Hexp; exact Hsel | reflexivity].
   unfold keep_sel. cbn [s_m s_nss s_tm s_ev].
-  unfold enter_bk. replace (sdat mc s) with (sdat m s) by reflexivity. rewrite Hr.
-  match goal with |- context [run_actions sh nested ?a ?mm] => destruct (run_actions sh nested a mm) as [m2 e] end.
-  cbn. rewrite He. eauto.
+  rewrite (enter_bk_ran mc s) by exact Hr. reflexivity.
+Qed.
+
+Theorem holds_until_expiry m now s :
+  engaged m = true -> cur m = Some s -> ran (sdat m s) = true ->
+  now - start m <= st_exp (sdat m s) -> requested_or_must m s -> clk m <= now ->
+  exists m2 e,
+    exec_step sh body nested m now =
+    (m2, EvCall s (now - start m) (now - start m - st_start (sdat m s)) false true :: e).
+Proof.
+  intros He Hc Hr Hx Hk Hclk. rewrite (holds_until_expiry_eq m now s) by assumption.
+  destruct (finish_call_shape (m <| clk := now |>) s (now - start m) (now - start m - st_start (sdat m s)) false [])
+    as (m2 & e & ->). cbn. rewrite He. eauto.
 Qed.
 
 (* T2: on the first iteration with tm > expiry control passes to next_state, whose
    clock starts at the predecessor's expiry (not at this iteration) and whose own
    expiry is that instant plus its duration tunable as it is now *)
+Theorem expiry_hands_over_eq m now s dc n :
+  engaged m = true -> cur m = Some s -> ran (sdat m s) = true ->
+  st_exp (sdat m s) < now - start m ->
+  lookup sh s = Some dc -> d_timed dc = true -> d_next dc = Some n -> is_state sh n = true ->
+  requested_or_must m n -> clk m <= now ->
+  let x := st_exp (sdat m s) in
+  let mn := next_state (m <| clk := now |>) n in
+  exec_step sh body nested m now =
+  finish_call (bk_m mn n x) n (now - start m) (now - start m - x) true [EvEnter n; bk_ev mn n x].
+Proof.
+  intros He Hc Hr Hx Hl Ht Hn Hsn Hk Hclk x mn.
+  set (mc := m <| clk := now |>).
+  assert (Hlat : latch mc now = mc) by (apply latch_engaged_id; exact He).
+  pose proof (expire_next sh mc now s dc n Hc Hr Hx Hl Ht Hn Hsn) as Hexp.
+  match type of Hexp with _ = ?r => set (xr := r) in * end.
+  assert (Hsel : select sh xr = xr)
+    by (apply select_kept; exists n; split; [reflexivity | exact Hk]).
+  rewrite (exec_step_call m now xr n);
+    [| rewrite He; reflexivity | exact Hclk | fold mc; rewrite Hlat, Hexp; exact Hsel | reflexivity].
+  unfold xr. cbn [s_m s_nss s_tm s_ev].
+  rewrite enter_bk_fresh by apply next_state_ran.
+  fold mn. replace (st_exp (sdat mc s)) with x by reflexivity.
+  rewrite bk_m_start. reflexivity.
+Qed.
+
 Theorem expiry_hands_over m now s dc n :
   engaged m = true -> cur m = Some s -> ran (sdat m s) = true ->
   st_exp (sdat m s) < now - start m ->
@@ -79,23 +141,43 @@ Theorem expiry_hands_over m now s dc n :
          :: EvCall n (now - start m) (now - start m - x) true true :: e).
 Proof.
   intros He Hc Hr Hx Hl Ht Hn Hsn Hk Hclk x.
-  set (mc := m <| clk := now |>).
-  assert (Hlat : latch mc now = mc) by (apply latch_engaged_id; exact He).
-  pose proof (expire_next sh mc now s dc n Hc Hr Hx Hl Ht Hn Hsn) as Hexp.
-  match type of Hexp with _ = ?r => set (xr := r) in * end.
-  assert (Hsel : select sh xr = xr)
-    by (apply select_kept; exists n; split; [reflexivity | exact Hk]).
-  rewrite (exec_step_call m now xr n);
-    [| rewrite He; reflexivity | exact Hclk | fold mc; rewrite Hlat, Hexp; exact Hsel | reflexivity].
-  unfold xr. cbn [s_m s_nss s_tm s_ev].
-  unfold enter_bk. rewrite next_state_ran.
-  match goal with |- context [run_actions sh nested ?a ?mm] => destruct (run_actions sh nested a mm) as [m2 e] end.
-  cbn. unfold upd. rewrite Nat.eqb_refl. cbn. rewrite He. eauto.
+  rewrite (expiry_hands_over_eq m now s dc n) by assumption. fold x.
+  match goal with |- context [finish_call ?a ?b ?c ?d ?e ?f] => destruct (finish_call_shape a b c d e f) as (m2 & e0 & ->) end.
+  cbn. rewrite He. eauto.
 Qed.
 
 (* T3a: the last timed state expired and the machine is still requested: done(),
    then the first state starts over in a clock frame whose origin is the expiry
    instant: tm restarts at (now - expiry), not at 0 and not at now *)
+Theorem expiry_cycles_eq m now s dc :
+  sh_auto sh = false -> should m = true ->
+  engaged m = true -> cur m = Some s -> ran (sdat m s) = true ->
+  st_exp (sdat m s) < now - start m ->
+  lookup sh s = Some dc -> d_timed dc = true -> d_next dc = None -> clk m <= now ->
+  let x := st_exp (sdat m s) in
+  let f := sh_first sh in
+  let mn := next_state (done sh (m <| clk := now |>) <| start := start m + x |> <| engaged := true |>) f in
+  exec_step sh body nested m now =
+  finish_call (bk_m mn f 0) f (now - start m - x) (now - start m - x - 0) true [EvDone; EvEnter f; bk_ev mn f 0].
+Proof.
+  intros Ha Hs He Hc Hr Hx Hl Ht Hn Hclk x f mn.
+  set (mc := m <| clk := now |>).
+  assert (Hlat : latch mc now = mc) by (apply latch_engaged_id; exact He).
+  pose proof (expire_last sh mc now s dc Hc Hr Hx Hl Ht Hn) as Hexp.
+  rewrite done_should_plain in Hexp by exact Ha. replace (should mc) with true in Hexp by (symmetry; exact Hs).
+  match type of Hexp with _ = ?r => set (xr := r) in * end.
+  assert (Hsel : select sh xr = xr).
+  { apply select_kept. exists f. split; [reflexivity|]. unfold xr. cbn.
+    rewrite done_should_plain by exact Ha. cbn. rewrite Hs. reflexivity. }
+  rewrite (exec_step_call m now xr f);
+    [| rewrite He; reflexivity | exact Hclk | fold mc; rewrite Hlat, Hexp; exact Hsel | reflexivity].
+  unfold xr. cbn [s_m s_nss s_tm s_ev].
+  rewrite enter_bk_fresh by apply next_state_ran.
+  rewrite done_start. replace (start mc) with (start m) by reflexivity.
+  replace (st_exp (sdat mc s)) with x by reflexivity. fold f. fold mn.
+  rewrite bk_m_start. reflexivity.
+Qed.
+
 Theorem expiry_cycles m now s dc :
   sh_auto sh = false -> should m = true ->
   engaged m = true -> cur m = Some s -> ran (sdat m s) = true ->
@@ -109,24 +191,9 @@ Theorem expiry_cycles m now s dc :
          :: EvCall f (now - start m - x) (now - start m - x - 0) true true :: e).
 Proof.
   intros Ha Hs He Hc Hr Hx Hl Ht Hn Hclk x f.
-  set (mc := m <| clk := now |>).
-  assert (Hlat : latch mc now = mc) by (apply latch_engaged_id; exact He).
-  pose proof (expire_last sh mc now s dc Hc Hr Hx Hl Ht Hn) as Hexp.
-  rewrite done_should_plain in Hexp by exact Ha. replace (should mc) with true in Hexp by (symmetry; exact Hs).
-  match type of Hexp with _ = ?r => set (xr := r) in * end.
-  assert (Hsel : select sh xr = xr).
-  { apply select_kept. exists f. split; [reflexivity|]. unfold xr. cbn.
-    rewrite done_should_plain by exact Ha. cbn. rewrite Hs. reflexivity. }
-  rewrite (exec_step_call m now xr f);
-    [| rewrite He; reflexivity | exact Hclk | fold mc; rewrite Hlat, Hexp; exact Hsel | reflexivity].
-  unfold xr. cbn [s_m s_nss s_tm s_ev].
-  unfold enter_bk. rewrite next_state_ran.
-  match goal with |- context [run_actions sh nested ?a ?mm] => destruct (run_actions sh nested a mm) as [m2 e] end.
-  cbn. unfold upd. rewrite Nat.eqb_refl. cbn. rewrite done_start. cbn.
-  unfold duration_of, f, x. rewrite ?Z.add_0_r.
-  replace (dur (next_state (done sh mc <| start := start m + st_exp (sdat m s) |> <| engaged := true |>) (sh_first sh)))
-    with (dur m) by (cbn; rewrite done_dur; reflexivity).
-  eauto.
+  rewrite (expiry_cycles_eq m now s dc) by assumption. fold x f.
+  match goal with |- context [finish_call ?a ?b ?c ?d ?e ?f] => destruct (finish_call_shape a b c d e f) as (m2 & e0 & ->) end.
+  unfold bk_ev, bk_m, duration_of. cbn. rewrite done_dur. cbn. rewrite ?Z.add_0_r. eauto.
 Qed.
 
 (* T3b: ... and when it is no longer requested (or for an AutonomousStateMachine,
@@ -158,6 +225,26 @@ Qed.
 
 (* T4: a state that has just been entered is always run once, with initial_call,
    whatever tm is (also when tm is already past a stale expiry) *)
+Theorem entered_runs_once_eq m now s :
+  engaged m = true -> cur m = Some s -> ran (sdat m s) = false ->
+  requested_or_must m s -> clk m <= now ->
+  let tm := now - start m in
+  let mc := m <| clk := now |> in
+  exec_step sh body nested m now = finish_call (bk_m mc s tm) s tm (tm - tm) true [bk_ev mc s tm].
+Proof.
+  intros He Hc Hr Hk Hclk tm mc.
+  assert (Hl : latch mc now = mc) by (apply latch_engaged_id; exact He).
+  assert (Hexp : expire sh mc now = keep_sel mc now (Some s))
+    by (apply expire_keep; [exact Hc | left; exact Hr]).
+  assert (Hsel : select sh (keep_sel mc now (Some s)) = keep_sel mc now (Some s))
+    by (apply select_kept; exists s; split; [reflexivity | exact Hk]).
+  rewrite (exec_step_call m now (keep_sel mc now (Some s)) s);
+    [| rewrite He; reflexivity | exact Hclk | fold mc; rewrite Hl, Hexp; exact Hsel | reflexivity].
+  unfold keep_sel. cbn [s_m s_nss s_tm s_ev].
+  rewrite (enter_bk_fresh mc s) by exact Hr. replace (start mc) with (start m) by reflexivity. fold tm.
+  rewrite bk_m_start. reflexivity.
+Qed.
+
 Theorem entered_runs_once m now s :
   engaged m = true -> cur m = Some s -> ran (sdat m s) = false ->
   requested_or_must m s -> clk m <= now ->
@@ -167,24 +254,47 @@ Theorem entered_runs_once m now s :
     (m2, EvBk s (start m + tm) (start m + (tm + duration_of sh m s))
          :: EvCall s tm (tm - tm) true true :: e).
 Proof.
-  intros He Hc Hr Hk Hclk tm.
-  set (mc := m <| clk := now |>).
-  assert (Hl : latch mc now = mc) by (apply latch_engaged_id; exact He).
-  assert (Hexp : expire sh mc now = keep_sel mc now (Some s))
-    by (apply expire_keep; [exact Hc | left; exact Hr]).
-  assert (Hsel : select sh (keep_sel mc now (Some s)) = keep_sel mc now (Some s))
-    by (apply select_kept; exists s; split; [reflexivity | exact Hk]).
-  rewrite (exec_step_call m now (keep_sel mc now (Some s)) s);
-    [| rewrite He; reflexivity | exact Hclk | fold mc; rewrite Hl, Hexp; exact Hsel | reflexivity].
-  unfold keep_sel. cbn [s_m s_nss s_tm s_ev].
-  unfold enter_bk. replace (sdat mc s) with (sdat m s) by reflexivity. rewrite Hr.
-  match goal with |- context [run_actions sh nested ?a ?mm] => destruct (run_actions sh nested a mm) as [m2 e] end.
-  cbn. unfold upd. rewrite Nat.eqb_refl. cbn. rewrite He. eauto.
+  intros He Hc Hr Hk Hclk tm. rewrite (entered_runs_once_eq m now s) by assumption. fold tm.
+  match goal with |- context [finish_call ?a ?b ?c ?d ?e ?f] => destruct (finish_call_shape a b c d e f) as (m2 & e0 & ->) end.
+  cbn. rewrite He. eauto.
 Qed.
 
 (* T5: engage() on a stopped machine, then the first iteration: the requested
    initial state (or the first state) is called with tm = 0, state_tm = 0,
    initial_call = True, and the machine is executing *)
+Theorem restart_fresh_eq m now init force :
+  engaged m = false -> (cur m = None \/ at_default sh m = true) -> clk m <= now ->
+  let tgt := match init with Some s => s | None => sh_first sh end in
+  is_state sh tgt = true -> is_default sh tgt = false ->
+  let ml := next_state (m <| should := true |>) tgt <| clk := now |> <| start := now |> <| engaged := true |> in
+  engage sh m init force = (next_state (m <| should := true |>) tgt, [EvEnter tgt]) /\
+  exec_step sh body nested (next_state (m <| should := true |>) tgt) now =
+  finish_call (bk_m ml tgt 0) tgt 0 0 true [bk_ev ml tgt 0].
+Proof.
+  intros He Hidle Hclk tgt Hst Hd ml.
+  assert (Heng : engage sh m init force = (next_state (m <| should := true |>) tgt, [EvEnter tgt])).
+  { unfold engage. fold tgt.
+    replace (force || is_none (cur (m <| should := true |>)) || at_default sh (m <| should := true |>))%bool with true.
+    - rewrite Hst, Hd. reflexivity.
+    - symmetry. destruct Hidle as [Hn|Hn].
+      + cbn. rewrite Hn. cbn. rewrite orb_true_r. reflexivity.
+      + replace (at_default sh (m <| should := true |>)) with (at_default sh m) by reflexivity.
+        rewrite Hn. apply orb_true_r. }
+  split; [exact Heng|].
+  set (m1 := next_state (m <| should := true |>) tgt).
+  set (mc := m1 <| clk := now |>).
+  assert (Hl : latch mc now = ml) by (unfold latch; cbn; rewrite He; reflexivity).
+  assert (Hexp : expire sh ml now = keep_sel ml now (Some tgt)).
+  { apply expire_keep; [reflexivity|]. left. unfold ml, m1. cbn. unfold upd. rewrite Nat.eqb_refl. reflexivity. }
+  assert (Hsel : select sh (keep_sel ml now (Some tgt)) = keep_sel ml now (Some tgt))
+    by (apply select_kept; exists tgt; split; reflexivity).
+  rewrite (exec_step_call m1 now (keep_sel ml now (Some tgt)) tgt);
+    [| cbn; rewrite andb_false_r; reflexivity | exact Hclk | fold mc; rewrite Hl, Hexp; exact Hsel | reflexivity].
+  unfold keep_sel. cbn [s_m s_nss s_tm s_ev].
+  rewrite enter_bk_fresh by (unfold ml, m1; cbn; unfold upd; rewrite Nat.eqb_refl; reflexivity).
+  replace (start ml) with now by reflexivity. rewrite Z.sub_diag, bk_m_start. reflexivity.
+Qed.
+
 Theorem restart_fresh m now init force :
   engaged m = false -> (cur m = None \/ at_default sh m = true) -> clk m <= now ->
   let tgt := match init with Some s => s | None => sh_first sh end in
@@ -196,30 +306,10 @@ Theorem restart_fresh m now init force :
     (m2, EvBk tgt (now + 0) (now + (0 + duration_of sh m tgt)) :: EvCall tgt 0 0 true true :: e).
 Proof.
   intros He Hidle Hclk tgt Hst Hd m1.
-  assert (Heng : engage sh m init force = (next_state (m <| should := true |>) tgt, [EvEnter tgt])).
-  { unfold engage. fold tgt.
-    replace (force || is_none (cur (m <| should := true |>)) || at_default sh (m <| should := true |>))%bool with true.
-    - rewrite Hst, Hd. reflexivity.
-    - symmetry. destruct Hidle as [Hn|Hn].
-      + cbn. rewrite Hn. cbn. rewrite orb_true_r. reflexivity.
-      + replace (at_default sh (m <| should := true |>)) with (at_default sh m) by reflexivity.
-        rewrite Hn. apply orb_true_r. }
-  subst m1. rewrite Heng. cbn [fst snd]. split; [reflexivity|].
-  set (m1 := next_state (m <| should := true |>) tgt).
-  set (mc := m1 <| clk := now |>).
-  set (ml := mc <| start := now |> <| engaged := true |>).
-  assert (Hl : latch mc now = ml) by (unfold latch; cbn; rewrite He; reflexivity).
-  assert (Hexp : expire sh ml now = keep_sel ml now (Some tgt)).
-  { apply expire_keep; [reflexivity|]. left. unfold ml, mc, m1. cbn. unfold upd. rewrite Nat.eqb_refl. reflexivity. }
-  assert (Hsel : select sh (keep_sel ml now (Some tgt)) = keep_sel ml now (Some tgt))
-    by (apply select_kept; exists tgt; split; reflexivity).
-  rewrite (exec_step_call m1 now (keep_sel ml now (Some tgt)) tgt);
-    [| cbn; rewrite andb_false_r; reflexivity | exact Hclk | fold mc; rewrite Hl, Hexp; exact Hsel | reflexivity].
-  unfold keep_sel. cbn [s_m s_nss s_tm s_ev].
-  unfold enter_bk.
-  replace (ran (sdat ml tgt)) with false by (unfold ml, mc, m1; cbn; unfold upd; rewrite Nat.eqb_refl; reflexivity).
-  match goal with |- context [run_actions sh nested ?a ?mm] => destruct (run_actions sh nested a mm) as [m2 e] end.
-  cbn. unfold upd. rewrite Nat.eqb_refl. cbn. rewrite Z.sub_diag. cbn. eauto.
+  destruct (restart_fresh_eq m now init force He Hidle Hclk Hst Hd) as [Heng Hex]. fold tgt in Heng, Hex.
+  subst m1. rewrite Heng. cbn [fst snd]. split; [reflexivity|]. rewrite Hex.
+  match goal with |- context [finish_call ?a ?b ?c ?d ?e ?f] => destruct (finish_call_shape a b c d e f) as (m2 & e0 & ->) end.
+  cbn. eauto.
 Qed.
 
 (* a NetworkTables write to a duration after the state was entered does not move
